@@ -119,10 +119,10 @@ Proof.
 Qed.
 
 (* ---- C04: reader fast paths refuse when a barrier runs or is pending, or the queue is dirty ---- *)
-Lemma reader_fastpath_guards s tail :
+Lemma reader_fastpath_guards s tail w :
   (nz (f_dq_state_is_dirty s) = true \/ nz (f_dq_state_has_pending_barrier s) = true \/
    nz (f_dq_state_is_sync_runnable s) = false \/ nz tail = true) ->
-  exists r, f_dispatch_queue_try_reserve_sync_width 0 tail s = NoCommit r [].
+  exists r, f_dispatch_queue_try_reserve_sync_width 0 tail s w = NoCommit r [].
 Proof.
   intros H. unfold f_dispatch_queue_try_reserve_sync_width.
   destruct (nz tail) eqn:T; cbn [negb]; [eexists; reflexivity|].
